@@ -193,11 +193,16 @@ def runLoop (cfg : Cfg) : Nat → Bool → St → List Row → St × List Row
     let log' := match row with | some r => log ++ [r] | none => log
     if s'.simTime > cfg.duration then (s', log') else runLoop cfg fuel false s' log'
 
+/-- enough fuel for `runLoop`: every pass accepts a time strictly later than the previous accepted time and,
+except for the very first pass, not later than the duration (a partial step leaves `simTime` where it was,
+so `duration - simTime` would not be a bound: controls may cut one hydraulic step into many pieces) -/
+def runFuel (cfg : Cfg) (prev : Int) : Nat := (cfg.duration - prev).toNat + 2
+
 /-- `run_sim` on a model whose clock is at `simTime` (0 and `prevTime = -1` on a fresh model) -/
 def runSim (cfg : Cfg) (simTime prevTime : Int) (vals : Vals) : St × List Row :=
   let first := simTime == 0
   let prev := if first then -1 else prevTime
   let s : St := { simTime, prevTime := prev, ruleIter := initRuleIter cfg first prev, vals, ruleLog := [] }
-  runLoop cfg ((cfg.duration - simTime).toNat + 2) first s []
+  runLoop cfg (runFuel cfg prev) first s []
 
 end Wntr.Sched
